@@ -1,6 +1,7 @@
 import Vflow.Proofs.RoundIpfix
 import Vflow.Proofs.HeaderLayouts
 import Vflow.Proofs.Interpret
+import Vflow.Proofs.IpfixIR
 import Vflow.Gen.Sites
 import Vflow.Spec.Sites
 /-!
@@ -375,6 +376,52 @@ theorem gen_optTplHeader_layout (r : Rd) (tid n sc : Nat) (r3 : Rd)
          match Ipfix.readSpecs ((n + 65536 - sc) % 65536) r4 [] with
          | (.error e, r5) => (.error e, r5)
          | (.ok fs, r5) => (.ok ⟨tid, n, sc, scs, fs⟩, r5)) := HeaderLayouts.ipfix_optTplHeader_read r tid n sc r3 h
+
+/-! ## Tie: the decoder's functions TRANSLATED statement by statement on every run (`Gen.IpfixIR`, from the Go AST by
+`go/cmd/factgen/ipfix_ir.go`) and interpreted with Go's semantics (`Model/IpfixIR.lean`: `Func.sem`, linked in
+`Model/IpfixProg.lean`) ARE the functions of the hand-written model — for every argument, reader state, cache, exporter
+address and fuel.  Not only the conditions (`guards_reviewed`) but what is assigned, in which order, what a loop carries
+and what is returned on which path.  Proofs in `Proofs/IpfixIR.lean`.  A function result is
+`some (state afterwards, final values of the by-pointer arguments, results)`; `none` would be a panic, an
+unrecognised statement or an unfinished loop. -/
+
+/-- the struct declarations the interpreter's field semantics (`fieldOf` / `setField`) stand for -/
+theorem gen_ir_structs :
+    Gen.IpfixIR.structs =
+      [("Decoder", "raddr net.IP; reader *reader.Reader"),
+       ("MessageHeader", "Version uint16; Length uint16; ExportTime uint32; SequenceNo uint32; DomainID uint32"),
+       ("TemplateHeader", "TemplateID uint16; FieldCount uint16; ScopeFieldCount uint16"),
+       ("TemplateRecord", "TemplateID uint16; FieldCount uint16; FieldSpecifiers []TemplateFieldSpecifier; ScopeFieldCount uint16; ScopeFieldSpecifiers []TemplateFieldSpecifier"),
+       ("TemplateFieldSpecifier", "ElementID uint16; Length uint16; EnterpriseNo uint32"),
+       ("Message", "AgentID string; Header MessageHeader; DataSets [][]DecodedField"),
+       ("DecodedField", "ID uint16; Value interface{}; EnterpriseNo uint32"),
+       ("SetHeader", "SetID uint16; Length uint16"),
+       ("nonfatalError", "error"),
+       ("ElementKey", "EnterpriseNo uint32; ElementID uint16"),
+       ("InfoElementEntry", "FieldID uint16; Name string; Type FieldType")] := by decide +kernel
+
+/-- **`Decoder.getDataLength` translated = `Ipfix.dataLen`**: same reader afterwards, same length or the reader's
+error (returned as a fatal error with length 0), the cache untouched, for every specifier length -/
+theorem gen_ir_getDataLength (addr : Bytes) (fuel : Nat) (r : Rd) (c : Cache) (len : Nat) :
+    IpfixProg.getDataLength addr fuel [.int len] ⟨r, c⟩ =
+      some (⟨(Ipfix.dataLen r len).2, c⟩, [], IpfixProg.lenResult (Ipfix.dataLen r len).1) :=
+  IpfixIR.getDataLength_sem addr fuel r c len
+
+/-- **`TemplateRecord.minRecordLen` translated = `Ipfix.minRecLen`** for every template (any number of scope and field
+specifiers: the two `range` loops need no fuel); the template and the decoder state are left as they were -/
+theorem gen_ir_minRecordLen (addr : Bytes) (fuel : Nat) (st : IpfixIR.St) (t : Template) :
+    IpfixProg.minRecordLen addr fuel [.tpl t] st = some (st, [.tpl t], [.int (Ipfix.minRecLen t)]) :=
+  IpfixIR.minRecordLen_sem addr fuel st t
+
+/-- non-vacuity: the translated `getDataLength` on the three-octet prefix `ff 01 00` and on a short reader; the
+translated `minRecordLen` on a template with a variable-length field -/
+example : IpfixProg.getDataLength [] 0 [.int 65535] ⟨⟨[255, 1, 0, 7], 0⟩, []⟩ = some (⟨⟨[7], 3⟩, []⟩, [], [.int 256, .nil]) ∧
+    IpfixProg.getDataLength [] 0 [.int 65535] ⟨⟨[255, 1], 0⟩, []⟩ = some (⟨⟨[1], 1⟩, []⟩, [], [.int 0, .err ⟨false, .short⟩]) ∧
+    IpfixProg.minRecordLen [] 0 [.tpl exTpl] ⟨⟨[], 0⟩, []⟩ = some (⟨⟨[], 0⟩, []⟩, [.tpl exTpl], [.int 5]) := by
+  refine ⟨?_, ?_, ?_⟩
+  · rw [gen_ir_getDataLength]; rfl
+  · rw [gen_ir_getDataLength]; rfl
+  · rw [gen_ir_minRecordLen]; rfl
 
 /-- **Tie (control-flow skeleton)**: every branch / loop condition, switch case and `break` / `continue` of the
 sources this model mirrors, re-extracted on every run, is exactly the reviewed inventory in `Spec/Sites.lean`
